@@ -103,12 +103,20 @@ def gen_case(rng, malformed=None):
         elif kind == "blocks>255":
             buffer = 4
             binaries[call["map"][0][0]] = [rng.randrange(256) for _ in range(4 * rng.choice([255, 256, 257]))]
-        elif kind == "dupcore" and call["map"][0][1]:
+        elif kind == "dupcore" and call["map"][0][1] and nbin > 1:
             x, y, ps = call["map"][0][1][0]
             other = (call["map"][0][0] + 1) % nbin
-            call["map"].append([other, [[x, y, [ps[0]]]]]) if other != call["map"][0][0] else None
-            if other == call["map"][0][0]:
-                kind = "valid"
+            entry = [e for e in call["map"] if e[0] == other]
+            if not entry:
+                call["map"].append([other, [[x, y, [ps[0]]]]])
+            else:
+                t = [t for t in entry[0][1] if t[:2] == [x, y]]
+                if t:
+                    t[0][2] = sorted(set(t[0][2]) | {ps[0]})
+                else:
+                    entry[0][1].append([x, y, [ps[0]]])
+        elif kind == "dupcore":
+            kind = "valid"
         elif kind == "empty":
             call["map"] = rng.choice([[], [[call["map"][0][0], []]], [[call["map"][0][0], [[chips[0][0], chips[0][1], []]]]]])
         elif kind == "buffer-odd":
@@ -161,7 +169,7 @@ def canon_trace(trace, call_map, vcpu):
     """Sort the per-core state reads (pairs: read sv.vcpu_base, read vcpu.cpu_state) of one entry
     `(x, y): cores` of the map by core number: CPython's iteration order over a set of core numbers is not part
     of the model.  A run of reads on one chip is split between the binaries that name this chip, in map
-    order (each takes the longest prefix of cores it names)."""
+    order (each takes the longest prefix of distinct cores it names)."""
     out, i = [], 0
     core = lambda e: (e[4] - vcpu - 46) // 128
     while i < len(trace):
@@ -180,7 +188,7 @@ def canon_trace(trace, call_map, vcpu):
         j = 0
         for S in sets:
             seg = []
-            while j < len(run) and core(run[j][1]) in S:
+            while j < len(run) and core(run[j][1]) in S and core(run[j][1]) not in [core(pr[1]) for pr in seg]:
                 seg.append(run[j])
                 j += 1
             seg.sort(key=lambda pr: pr[1][4])
